@@ -45,7 +45,9 @@ PROBES_REQUIRED = ["file-name-with-wildcard-characters", "limit-with-header", "c
                    "exit:3", "three-files"]
 BAD_ARGS = [[], ["--bogus"], ["--until", "x", "cid.csv"], ["--until", "-2", "cid.csv"], ["--until"], ["--log", "loud", "cid.csv"],
             # a file name that is the empty string: unusable (2) or, read as "a file that cannot be read", 3 - never 4
-            ["cid.csv", ""], [""], ["", "data.csv"], ["cid.csv", "data.csv", ""]]
+            ["cid.csv", ""], [""], ["", "data.csv"], ["cid.csv", "data.csv", ""],
+            # an unusable option value is unusable whatever the CID is like
+            ["--until", "-2", "rejected-cid.csv"], ["--until", "-17", "missing-cid.csv"], ["--until=-2", "rejected-cid.csv", "data.csv"]]
 
 
 def _spec(fmt, header=0, end_check=False):
@@ -137,6 +139,8 @@ def execute(scenario):
     if "bad_args" in scenario:
         with simfs.Seams(fs):
             fs.store("cid.csv", b"d,format,delimited\nf,a\n")
+            fs.store("rejected-cid.csv", b"d,format,delimited\nf,a,,,,Nope\n")
+            fs.store("data.csv", b"x\n")
             outcome = _call_main(["cutplace"] + scenario["bad_args"])
         history.add("client", "main", {"argv": scenario["bad_args"], "outcome": outcome})
         result.probe("args-malformed")
@@ -207,9 +211,13 @@ def execute(scenario):
             orders.append(scenario["order2"])
         for order in orders:
             argv = ["cutplace"] + options + ["cid.csv"] + [paths[index] for index in order]
-            outcome = _call_main(argv)
+            passed = list(argv)
+            outcome = _call_main(passed)
             outcomes.append(outcome)
             history.add("client", "main", {"argv": argv, "outcome": outcome})
+            if passed != argv:
+                # the argument list belongs to the caller (it may be sys.argv, or a list used for the next call too)
+                raise core.Violation("argument-list-changed-by-main", [], "main() was given %r and left it as %r" % (argv, passed))
 
     # ---- RefCli ------------------------------------------------------------------------------
     if cid_kind in ("missing", "directory"):
